@@ -176,19 +176,40 @@ func c10(c *Ctx) {
 		}
 		key := ft.Obj().Name()
 		tb2 := ir.NewTB(c.P.IsRepoFunc, c.P.FuncKey)
+		// exponential iff: on some path GetRpmAvg returns a float field as is, and SetRpmAvg stores its
+		// parameter unmodified into that field (other returns, e.g. a fallback while the field is still
+		// zero, do not help: the decaying value is never exactly zero)
 		gt := tb2.Of(ir.Returns(get)[0].Results[0], nil)
-		// exponential iff: GetRpmAvg returns a float field as is, and SetRpmAvg stores its parameter unmodified into that field
-		exact := strings.HasPrefix(gt.Op, "field:")
-		storedRaw := false
-		Instrs(set, func(ins ssa.Instruction) {
-			if st, ok := ins.(*ssa.Store); ok {
-				if fa, ok := st.Addr.(*ssa.FieldAddr); ok {
-					if _, n, _ := ir.FieldName(fa); "field:"+n == gt.Op && len(set.Params) > 1 && ir.Resolve(st.Val) == ssa.Value(set.Params[1]) {
-						storedRaw = true
+		var leaves []*ir.Term
+		var collect func(t *ir.Term, depth int)
+		collect = func(t *ir.Term, depth int) {
+			if t.Op == "phi" && depth < 4 {
+				for _, a := range t.Args {
+					collect(a, depth+1)
+				}
+				return
+			}
+			leaves = append(leaves, t)
+		}
+		for _, rt := range ir.Returns(get) {
+			collect(tb2.Of(rt.Results[0], nil), 0)
+		}
+		exact, storedRaw := false, false
+		for _, lf := range leaves {
+			if !strings.HasPrefix(lf.Op, "field:") {
+				continue
+			}
+			Instrs(set, func(ins ssa.Instruction) {
+				if st, ok := ins.(*ssa.Store); ok {
+					if fa, ok := st.Addr.(*ssa.FieldAddr); ok {
+						if _, n, _ := ir.FieldName(fa); "field:"+n == lf.Op && len(set.Params) > 1 && ir.Resolve(st.Val) == ssa.Value(set.Params[1]) {
+							exact, storedRaw = true, true
+							gt = lf
+						}
 					}
 				}
-			}
-		})
+			})
+		}
 		exponential := exact && storedRaw && usesEMA
 		for _, p := range preds {
 			nonPositive := p.k <= 0
